@@ -277,10 +277,7 @@ def run_check(check_id, tier, collect=False, plan_override=None):
                     pending.remove(w)
                     finished.append(w)
                 elif res is not None and res.get("outcome") not in (None, "running"):
-                    # the worker has written its final outcome and removed its slot file but has not finished exiting yet
-                    # (tearing down a sanitizer process takes a while under load): not a hang - slot_age() would
-                    # otherwise fall back to the worker's whole run time
-                    pass
+                    pass    # final outcome written, slot removed, process still tearing down: not a hang
                 elif w.slot_age() > case_timeout and "--fork-each" not in w.extra:
                     # hang candidate: kill and treat like a crash with clause hang
                     w.reap()
